@@ -126,10 +126,11 @@ class _T(ast.NodeTransformer):
                 out.extend(tail)
                 continue
             if self.mode == "chain-split" and isinstance(st, ast.Assign) and len(st.targets) == 1 and isinstance(st.value, ast.Call) and \
-                    isinstance(st.value.func, ast.Attribute) and isinstance(st.value.func.value, ast.Call) and self.n < 1:
+                    isinstance(st.value.func, ast.Attribute) and isinstance(st.value.func.value, ast.Call) and \
+                    not (isinstance(st.value.func.value.func, ast.Name) and st.value.func.value.func.id == "super"):
                 self.n += 1
-                out.append(ast.copy_location(ast.Assign(targets=[ast.Name(id="chain__", ctx=ast.Store())], value=st.value.func.value), st))
-                st.value.func.value = ast.Name(id="chain__", ctx=ast.Load())
+                out.append(ast.copy_location(ast.Assign(targets=[ast.Name(id=f"chain{self.n}__", ctx=ast.Store())], value=st.value.func.value), st))
+                st.value.func.value = ast.Name(id=f"chain{self.n}__", ctx=ast.Load())
                 out.append(st)
                 continue
             if self.mode == "named-ret" and isinstance(st, ast.Return) and st.value is not None and not isinstance(st.value, (ast.Name, ast.Constant)):
